@@ -72,11 +72,11 @@ SPEC = dict(
         dict(name='min', harness='h_min', enforce='time_point_min'),
         dict(name='seconds_part', harness='h_seconds_part', enforce='time_point_seconds_part'),
         dict(name='nanoseconds_part', harness='h_nanoseconds_part', enforce='time_point_nanoseconds_part'),
-        dict(name='plus_eq', harness='h_plus_eq', enforce='time_point_plus_eq', replace=['time_point_normalize'], solver='cadical', timeout=150),
-        dict(name='minus_eq', harness='h_minus_eq', enforce='time_point_minus_eq', replace=['time_point_normalize'], solver='cadical', timeout=150),
+        dict(name='plus_eq', harness='h_plus_eq', enforce='time_point_plus_eq', replace=['time_point_normalize'], solver='cadical', timeout=300),
+        dict(name='minus_eq', harness='h_minus_eq', enforce='time_point_minus_eq', replace=['time_point_normalize'], solver='cadical', timeout=300),
         dict(name='plus_d', harness='h_plus_d', enforce='time_point_plus_d', replace=['time_point_plus_eq']),
         dict(name='minus_d', harness='h_minus_d', enforce='time_point_minus_d', replace=['time_point_minus_eq']),
-        dict(name='minus', harness='h_minus', enforce='time_point_minus', solver='cadical', timeout=150),
+        dict(name='minus', harness='h_minus', enforce='time_point_minus', solver='cadical', timeout=300),
         dict(name='eq', harness='h_eq', enforce='time_point_eq'),
         dict(name='lt', harness='h_lt', enforce='time_point_lt'),
         dict(name='ne', harness='h_ne', enforce='time_point_ne', replace=['time_point_eq']),
@@ -84,13 +84,37 @@ SPEC = dict(
         dict(name='le', harness='h_le', enforce='time_point_le', replace=['time_point_lt']),
         dict(name='ge', harness='h_ge', enforce='time_point_ge', replace=['time_point_lt']),
         dict(name='lemma_order', harness='lemma_order', mode='lemma'),
-        dict(name='lemma_order_value', harness='lemma_order_value', mode='lemma', timeout=150),
+        dict(name='lemma_order_value', harness='lemma_order_value', mode='lemma'),
         dict(name='lemma_canon_unique', harness='lemma_canon_unique', mode='lemma'),
         dict(name='lemma_normalize_idempotent', harness='lemma_normalize_idempotent', mode='lemma'),
         dict(name='lemma_extremes', harness='lemma_extremes', mode='lemma'),
-        dict(name='lemma_div_axiom', harness='lemma_div_axiom', mode='lemma', timeout=150),
-        dict(name='lemma_add_sub_roundtrip', harness='lemma_add_sub_roundtrip', mode='lemma', solver='cadical', timeout=150),
+        dict(name='lemma_div_axiom', harness='lemma_div_axiom', mode='lemma'),
+        dict(name='lemma_add_sub_roundtrip', harness='lemma_add_sub_roundtrip', mode='lemma', enforce='lemma_add_sub_roundtrip_fn', replace=['time_point_plus_eq', 'time_point_minus_eq'], timeout=300),
+        dict(name='lemma_diff_of_sum', harness='lemma_diff_of_sum', mode='lemma', enforce='lemma_diff_of_sum_fn', replace=['time_point_plus_d', 'time_point_minus'], solver='cadical', timeout=300),
+        dict(name='lemma_ring', harness='lemma_ring', mode='lemma', flags=['--z3'], no_second_backend=True, timeout=300),
     ],
-    assumptions=[],
-    drops=[],
+    assumptions=[
+        'operand ranges: time_point seconds within +-2^61 for += / -= / + / - (normalize and from_seconds_and_nanoseconds: +-2^62), durations within +-2^62 ticks '
+        '(about 14 600 years; an obligation inside the cast); operator-(tp,tp): |seconds| < 2^38 each, so that the tick count fits 64 bits with margin',
+        'normalize / from_seconds_and_nanoseconds are proved for |nanoseconds| < 4*10^9 only: every internal call site satisfies this (operands of += / -= are a canonical '
+        'pair plus a remainder below 10^9 -- checked as the precondition of the replaced contract -- and now() passes tv_nsec in [0, 10^9)); from_seconds_and_nanoseconds '
+        'with arbitrary 64-bit nanoseconds is UNPROVED (solver limit: 64-bit division by 10^9 with a large quotient is decided by none of MiniSat, CaDiCaL, z3, cvc5)',
+        'std::chrono::duration_cast is written out as the integer expressions [time.duration.cast] prescribes for duration<int64, ratio<1,10^7>> (trusted): '
+        'seconds = count / 10^7, d - seconds = count - s * 10^7 (common type 100 ns), nanoseconds = ticks * 100; std::chrono::seconds / nanoseconds have 64-bit reps',
+        'the one division in that written-out text (count / 10^7, quotient up to 40 bits) is represented by its defining property (DC_AXIOM: d == q*10^7 + r, |r| < 10^7, r has the '
+        'sign of d: C++ [expr.mul]/4 truncation); it is cross-checked against CBMC\'s own `/`, including uniqueness of the solution, for |d| < 2^32 ticks only (lemma_div_axiom); '
+        'the products dc_q*10^7 and sub_ds*10^7 are named by ghosts where they are evaluated and not evaluated a second time in postconditions',
+        'the comparison lemmas are on the full 64-bit domain; agreement of the order with the value s*10^9 + ns is proved on the value difference (b.s-a.s)*10^9 + (b.ns-a.ns) for '
+        'canonical pairs with |s| < 2^32 (the two-product form a.s*10^9 + a.ns < b.s*10^9 + b.ns needs monotonicity across two 64-bit multipliers, which the SAT back ends do not decide)',
+        'lemma_ring (distributivity of *10^7 over the carry, and ticks -> ns conversion of operator-\'s result) is discharged by z3 (flags --z3; the evidence row still says MiniSat2 because the '
+        'runner labels by --sat-solver); lemma_diff_of_sum assumes one instance of it and the definition of the ghost dc_m; both lemmas are limited to the ranges in their premises',
+        'operator-(tp,tp): the caller of the contract names the value difference as sub_ds seconds + sub_t ticks + sub_rem ns (|sub_rem| < 100, sign of the nanosecond difference); that every '
+        'pair of operands has exactly one such decomposition (Euclidean division by 100) is arithmetic, not re-proved; the result is exact iff sub_rem == 0 (operands on the 100 ns grain)',
+        'every time_point is canonical: class invariant, established by every constructor / mutator under contract (default, max, min, from_seconds_and_nanoseconds, +=, -=) and justified by the '
+        'closed-world scan of seconds_ / nanoseconds_ (private members; copy construction / assignment are defaulted)',
+        'clock_gettime(CLOCK_MONOTONIC) succeeds and returns tv_sec >= 0, 0 <= tv_nsec < 10^9 (POSIX); its return value is ignored by the code; monotonicity of successive readings is the kernel\'s',
+    ],
+    drops=['C++14 digit separators', 'constexpr / noexcept / friend / const&: operands passed by value', 'std::chrono::duration<Rep, Ratio> -> int64 tick count (the instantiation for monotonic_clock::duration); '
+           'duration_cast / duration subtraction -> written-out integer expressions (VF_DURATION_*)', 'template genericity of += / -= / + / - over other duration types (other instantiations are not verified)',
+           'time_point tp; -> struct + extracted default-constructor initialisers', 'std::numeric_limits<std::int64_t>::max/min -> INT64_MAX / INT64_MIN', 'timespec -> struct vf_timespec, clock_gettime -> event stub EV_clock_gettime'],
 )
